@@ -1,4 +1,5 @@
-/* C12 / C14 (B): the REAL _dbus_header_delete_field of a PRESENT field, with the real realignment core
+/* NOT REGISTERED (measured: symbolic execution does not converge, see tool/units/c12.py).
+ * C12 / C14 (B): the REAL _dbus_header_delete_field of a PRESENT field, with the real realignment core
  * (_dbus_type_reader_delete -> replacement_block_init / replacement_block_replace -> _dbus_type_writer_write_reader_partial,
  * _dbus_string_replace_len, apply_and_free_fixups; real dbus-string.c, dbus-marshal-basic.c), every allocation may fail.
  * Header: VERIF_N bytes, two fields; byte order, lengths, field codes, variant signatures and the string content are constants
